@@ -244,16 +244,17 @@ def r2(ctx, chk):
             try:
                 if stmt_i is None:
                     raise Unknown("the filter call is not a top-level statement")
-                for have in itertools.product((False, True), repeat=3):
+                # a part can be absent as None or as 0 (a numeric token '0' / '00' is stored as int 0): both count as missing
+                for have in itertools.product((None, 0, 5), repeat=3):
                     present = dict(zip(("day", "month", "year"), have))
 
                     def oracle(e, env, present=present):
                         if isinstance(e, ast.Call) and ast.unparse(e.func) == "getattr" and len(e.args) in (2, 3) and ast.unparse(e.args[0]) == "self":
                             k_ = e.args[1].value if isinstance(e.args[1], ast.Constant) else env.get(getattr(e.args[1], "id", None))
                             if k_ in present:
-                                return 1 if present[k_] else None
+                                return present[k_]
                         if isinstance(e, ast.Attribute) and isinstance(e.value, ast.Name) and e.value.id == "self" and e.attr in present:
-                            return 1 if present[e.attr] else None
+                            return present[e.attr]
                         raise Unknown(ast.unparse(e)[:40])
                     ev_ = Evaluator(oracle)
                     env = {}
